@@ -85,6 +85,18 @@ def run(ctx, prog):
                      'next_wal_seq.fetch_add at %s: held = %s' % (c.loc, {k_: v[0] for k_, v in h.items()}))
         if not fas:
             ctx.missing('C09.R1', '%s: next_wal_seq.fetch_add' % name)
+        # the guard is an Option (no persistence → no lock, and no sequence / log either): it must be None ONLY when there is no persistence — any further
+        # condition on it (a configuration switch, a fast path) lets a snapshot capture (seq, store) between this writer's allocation and its apply
+        for c in fas[:1]:
+            h = held(f, c.bb)
+            if SNAP in h and h[SNAP][1]:
+                prod = [x for x in f.calls if x.loc == h[SNAP][2] and x.dest is not None and f.locals[x.dest['l']].startswith('core::option::Option<') and 'Guard<' in f.locals[x.dest['l']]]
+                src = flow.render(o.of_operand(prod[0].args[0])) if prod and prod[0].args else '?'
+                ok = bool(prod) and prod[0].callee and flow.short(prod[0].callee).endswith('Option::map') and \
+                    re.match(r'^(Option::as_ref\()?arg:self→HnswBackend\.persistence\)?$', src) is not None
+                ctx.inst('C09.R1', f.short, 'the optional snapshot-lock guard is absent only when persistence is absent', ok,
+                         'guard produced by %s over %s%s' % (flow.short(prod[0].callee) if prod and prod[0].callee else '?', src[:120],
+                                                             '' if ok else ' — the guard can be None while a sequence number is allocated and logged'))
         k = 0
         for bb, a in sorted(lm.body_acqs.get(f.id, {}).items()):
             if a.cls in ('HnswBackend.doc_store', 'HnswBackend.index') and a.mode in ('W', 'U'):
